@@ -35,6 +35,14 @@ def keyval(r, typ, spool):
     return {"B": r.choice(BINKEYS)}
 
 
+def side_rng(obj):
+    """a generator of its own, derived from what has been generated so far: choices added to a generator later draw from
+    it, so that the scripts the main generator produced before stay what they were (recorded seeded changes keep being
+    met by the inputs that found them)"""
+    import json as _j
+    return random.Random(_j.dumps(obj, sort_keys=True, default=str))
+
+
 class Gen:
     def __init__(self, seed):
         self.r = random.Random(seed)
@@ -94,7 +102,7 @@ class Gen:
             # an attribute whose own name contains a dot, reached through a name placeholder (no attribute "dd" exists, so the
             # reading of the name as a document path - known finding - does not come into play)
             it["dd.y"] = S(r.choice(IDXVALS))
-        if r.random() < 0.2:
+        if side_rng(it).random() < 0.2:
             # an attribute that exists and holds NULL
             it["nl"] = {"NULL": True}
         if r.random() < 0.06:
@@ -146,11 +154,12 @@ class Gen:
         if r.random() < 0.02 and op["gsi"]:
             # an index name of two characters: refused by the request validation of the SDK v1 client only
             op["gsi"][0]["name"] = "gx"; t["indexes"][0]["name"] = "gx"
-        if r.random() < 0.25:
+        r2 = side_rng(op)
+        if r2.random() < 0.25:
             # the same key schemas with the RANGE element listed first (the order of the elements carries no meaning)
-            if schema["range"] and r.random() < 0.7: op["range_first"] = True
+            if schema["range"] and r2.random() < 0.7: op["range_first"] = True
             for ix in op["gsi"] + op["lsi"]:
-                if "range" in ix and r.random() < 0.6: ix["range_first"] = True
+                if "range" in ix and r2.random() < 0.6: ix["range_first"] = True
         if not op["gsi"]: del op["gsi"]
         if not op["lsi"]: del op["lsi"]
         if r.random() < 0.03:
